@@ -16,10 +16,12 @@ from fractions import Fraction as F
 from vcheck import fmt_q, fmt_vec, fmt_ivec, fmt_crs, split_top
 import gen
 from props.common import diff_run, oracle_run, account
+from props import vtmodel
 
-DRIVERS = ["adapters", "adapters_asan", "adapters3p", "pcorder", "pcorder2"]
+DRIVERS = ["adapters", "adapters_asan", "adapters3p", "pcorder", "pcorder2", "pcorder3", "pcorder_rt",
+           "adapters_vt", "adapters_vteig", "adapters_idx"]
 EXTRA_FLAGS = {"adapters_asan": ["-fsanitize=address", "-fno-omit-frame-pointer", "-g"],
-               "adapters3p": ["-I/usr/include/eigen3"]}
+               "adapters3p": ["-I/usr/include/eigen3"], "adapters_vteig": ["-I/usr/include/eigen3"]}
 MODEL = "adapters"
 ASSUMPTIONS = [
     "amgcl templates instantiated at the exact rational vq::Q execute the same code as at double",
@@ -36,9 +38,17 @@ ITYPES = ["int", "long", "unsigned", "size_t", "ptrdiff_t"]
 PC_KINDS = ["asp_damped_jacobi", "asp_spai0", "asp_gauss_seidel", "asp_ilu0", "asp_iluk", "asp_ilup", "asp_ilut",
             "asp_chebyshev", "dummy", "amg_sa_ilu0", "amg_agg_gs", "amg_direct", "amg_zc_ilu0"]
 PC2_KINDS = ["cpr", "cpr_drs", "schur", "schur_adj2", "schur_adj0", "schur_amg"]
+# round 2: the remaining classes that accept a user matrix, each with the order-SENSITIVE ILU(0) inside
+PC3_KINDS = ["ms_amg_ilu0", "ms_asp_ilu0", "defl_asp_ilu0", "defl_amg_ilu0", "schur_ilu0", "schur_amg_ilu0",
+             "cpr_ilu0", "cpr_drs_ilu0", "mbs_amg_ilu0", "mbs_asp_ilu0", "asp_zc_ilu0", "cpr_zc_ilu0"]
+# run-time wrapper (double, dyadic data, bitwise comparison): class x relaxation
+RT_CLASSES = ["amg", "relaxation", "dummy", "nested", "ms_amg", "ms_relaxation"]
+RT_RELAX = ["ilu0", "iluk", "ilup", "ilut", "spai0", "spai1", "gauss_seidel", "damped_jacobi", "chebyshev"]
+DRV_OF_OP = {"pc": "pcorder", "pc2": "pcorder2", "pc3": "pcorder3", "pcrt": "pcorder_rt"}
 SITE = {"asp": "relaxation::as_preconditioner", "amg": "amg", "amg_zc": "amg(shared_ptr) via adapter::zero_copy",
         "cpr": "preconditioner::cpr", "cpr_drs": "preconditioner::cpr_drs",
-        "schur": "preconditioner::schur_pressure_correction", "dummy": "preconditioner::dummy"}
+        "schur": "preconditioner::schur_pressure_correction", "dummy": "preconditioner::dummy",
+        "mbs": "make_block_solver", "ms": "make_solver", "defl": "deflated_solver", "rt": "runtime::preconditioner"}
 
 
 def perm_of(r, n):
@@ -48,21 +58,33 @@ def dy(r, nz=False):
     v = F(r.randint(-8, 8), r.choice([1, 2, 4]))
     return F(1) if (nz and v == 0) else v
 
-def block_matrix_case(r, b, nb, mb, kind):
+def block_matrix_case(r, b, nb, mb, kind, val=None):
     """sorted scalar rows of an (nb*b) x (mb*b) matrix with block structure.
-    kind: 'kron' (A (x) dense block), 'incomplete' (random subsets of each block), 'full'"""
+    kind: 'kron' (A (x) dense block), 'incomplete' (random subsets of each block), 'full',
+          'ragged' (every SCALAR row of a block row picks its own set of block columns, so the heads of the b
+          row iterators sit in different block columns: the shape that exposed seeded change C13-1)"""
+    val = val or (lambda nz=False: gen.rq(r, nz=nz))
     rows = [dict() for _ in range(nb * b)]
     for I in range(nb):
+        if kind == "ragged":
+            for i in range(b):
+                Js = [J for J in range(mb) if r.random() < 0.45]
+                if i == b - 1 and mb > 1 and r.random() < 0.7:      # a later row reaches a smaller block column
+                    Js = sorted(set(Js + [0]))
+                for J in Js:
+                    for j in range(b):
+                        if r.random() < 0.6: rows[I * b + i][J * b + j] = val(nz=(r.random() < 0.9))
+            continue
         Js = [J for J in range(mb) if r.random() < 0.5 or J == I]
         for J in Js:
             if kind == "kron":
-                a = gen.rq(r, nz=True)
+                a = val(nz=True)
                 for i in range(b): rows[I * b + i][J * b + i] = a
             else:
                 for i in range(b):
                     for j in range(b):
                         if kind == "full" or r.random() < 0.55:
-                            rows[I * b + i][J * b + j] = gen.rq(r, nz=(r.random() < 0.9))
+                            rows[I * b + i][J * b + j] = val(nz=(r.random() < 0.9))
     return [sorted(rw.items()) for rw in rows]
 
 
@@ -93,21 +115,51 @@ def view_cases(tier, seed):
     return out
 
 
-def block_cases(tier, seed, prefix="b"):
+ILIMIT = {"int": 2**31 - 1, "unsigned": 2**32 - 1, "long": 2**62 - 1, "size_t": 2**62 - 1, "ptrdiff_t": 2**62 - 1}
+
+def idx_cases(tier, seed):
+    """column indices / column counts near the largest value of each index type (64-bit types: near the largest
+    index the extracted model can carry, 2^62-1, and around the 32-bit boundaries)"""
+    r = random.Random(seed * 1000 + 21)
+    N = 8 if tier == "quick" else 60
+    out = []
+    for it in range(N):
+        for ity in ITYPES:
+            L = ILIMIT[ity]
+            m = L - r.choice([0, 0, 1, 5])
+            n = r.choice([1, 2, 3, 4])
+            special = [m - 1, m - 2, m - 1 - r.randint(0, 1000), 0, 1, r.randint(0, 10**6)]
+            if L > 2**32: special += [2**31 - 1, 2**31, 2**32 - 1, 2**32, 2**32 + 1]
+            elif L > 2**31: special += [2**31 - 1, 2**31, 2**31 + 1]
+            rows = []
+            for i in range(n):
+                cs = sorted(set(r.sample(special, r.randint(0, min(4, len(special))))))
+                cs = [c for c in cs if 0 <= c < m]
+                if r.random() < 0.3: r.shuffle(cs)
+                rows.append([(c, gen.rq(r, nz=True)) for c in cs])
+            out.append("i%d idx %s %s" % (len(out), ity, fmt_crs(n, m, rows)))
+    return out
+
+
+def block_cases(tier, seed, prefix="b", op="block", dyadic=False):
+    """dyadic=True: values that are exact in binary64 (for the double / Eigen-block drivers)"""
     r = random.Random(seed * 1000 + 13)
     N = 150 if tier == "quick" else 800
     out = []
-    def add(op, payload): out.append("%s%d %s %s" % (prefix, len(out), op, payload))
+    val = (lambda nz=False: dy(r, nz)) if dyadic else None
+    vec = (lambda k: [dy(r) for _ in range(k)]) if dyadic else (lambda k: gen.rvec(r, k))
+    coef = (lambda: r.choice([F(0), F(1), F(-1), dy(r, True)])) if dyadic else (lambda: gen.coef(r))
+    def add(payload): out.append("%s%d %s %s" % (prefix, len(out), op, payload))
     for it in range(N):
         b = r.choice([2, 3, 4]); nb = r.choice([1, 2, 3, 4]); mb = r.choice([nb, nb, max(1, nb + r.randint(-1, 2))])
-        kind = r.choice(["kron", "incomplete", "incomplete", "full"])
-        rows = block_matrix_case(r, b, nb, mb, kind)
+        kind = r.choice(["kron", "incomplete", "incomplete", "full", "ragged", "ragged"])
+        rows = block_matrix_case(r, b, nb, mb, kind, val)
         n, m = nb * b, mb * b
-        alpha, beta = gen.coef(r), gen.coef(r)
-        add("block %d" % b, " ".join([fmt_crs(n, m, rows), fmt_vec(gen.rvec(r, m)), fmt_q(alpha), fmt_q(beta), fmt_vec(gen.rvec(r, n))]))
+        alpha, beta = coef(), coef()
+        add("%d " % b + " ".join([fmt_crs(n, m, rows), fmt_vec(vec(m)), fmt_q(alpha), fmt_q(beta), fmt_vec(vec(n))]))
         if it % 10 == 0:   # precondition branch: size not divisible by the block size
             n2 = n + 1
-            add("block %d" % b, " ".join([fmt_crs(n2, m, rows + [[]]), fmt_vec(gen.rvec(r, m)), "1", "0", fmt_vec(gen.rvec(r, n2))]))
+            add("%d " % b + " ".join([fmt_crs(n2, m, rows + [[]]), fmt_vec(vec(m)), "1", "0", fmt_vec(vec(n2))]))
     return out
 
 
@@ -169,6 +221,25 @@ def pc_cases(tier, seed):
         for kind in PC2_KINDS:
             out.append(("p%d" % len(out), kind, "pcorder2", "pc2 %s %d %s" % (kind, bs, fmt_crs(n2, n2, sh2)),
                         "pc2 %s %d %s" % (kind, bs, fmt_crs(n2, n2, rows2)), dict(n=n2, bs=bs)))
+        for kind in PC3_KINDS:
+            out.append(("p%d" % len(out), kind, "pcorder3", "pc3 %s %d %s" % (kind, bs, fmt_crs(n2, n2, sh2)),
+                        "pc3 %s %d %s" % (kind, bs, fmt_crs(n2, n2, rows2)), dict(n=n2, bs=bs)))
+        # run-time wrapper: dyadic, strictly diagonally dominant; two (class, relaxation) pairs per matrix,
+        # cycling through the whole table
+        n3 = r.choice([3, 4, 6, 9])
+        rows3 = []
+        for i in range(n3):
+            rw = {}
+            for j in range(n3):
+                if j != i and r.random() < 0.5: rw[j] = dy(r, nz=True)
+            rw[i] = sum(abs(v) for v in rw.values()) + F(r.choice([1, 2, 3]), r.choice([1, 2]))
+            rows3.append(sorted(rw.items()))
+        sh3 = gen.shuffle_rows(r, rows3)
+        for q in range(4):
+            k = (4 * it + q) % (len(RT_CLASSES) * len(RT_RELAX))
+            cls, rel = RT_CLASSES[k % len(RT_CLASSES)], RT_RELAX[(k // len(RT_CLASSES) + k) % len(RT_RELAX)]
+            out.append(("p%d" % len(out), "rt_%s_%s" % (cls, rel), "pcorder_rt", "pcrt %s %s %s" % (cls, rel, fmt_crs(n3, n3, sh3)),
+                        "pcrt %s %s %s" % (cls, rel, fmt_crs(n3, n3, rows3)), dict(n=n3)))
     return out
 
 
@@ -186,6 +257,13 @@ def third_party_cases(tier, seed):
 
 
 def kind_site(kind):
+    if kind.startswith("mbs_"): return SITE["mbs"], "adapter::block_matrix"
+    if kind == "asp_zc_ilu0": return "relaxation::as_preconditioner(shared_ptr) via adapter::zero_copy", "ilu0"
+    if kind == "cpr_zc_ilu0": return "preconditioner::cpr(shared_ptr) via adapter::zero_copy", "block scan + ilu0"
+    if kind.startswith("ms_"): return SITE["ms"], kind[3:]
+    if kind.startswith("defl_"): return SITE["defl"], kind[5:]
+    if kind.startswith("rt_"): return SITE["rt"], kind[3:]
+    if kind.startswith(("schur_ilu0", "schur_amg_ilu0", "cpr_ilu0", "cpr_drs_ilu0")): return SITE["cpr_drs" if kind.startswith("cpr_drs") else kind.split("_")[0]], kind
     if kind.startswith("asp_"): return SITE["asp"], kind[4:]
     if kind.startswith("amg_zc"): return SITE["amg_zc"], kind.split("_", 2)[2]
     if kind.startswith("amg_"): return SITE["amg"], kind[4:]
@@ -201,9 +279,72 @@ def classify(fail):
     m = fail.get("meta") or {}
     if fail.get("group") == "dims":
         return dict(group="dims", adapter=m.get("adapter"), rectangular=m.get("rectangular"))
+    if fail.get("group") == "scaled-vt":
+        return classify_scaled_vt(fail)
+    if fail.get("group") == "idx":
+        # deep copy of a zero-copy view of a matrix WITHOUT non-zeros whose col/val pointers are null
+        # (data() of empty user vectors): the copy claims rows but has no arrays
+        imp = fail.get("impl") or ""; mod = fail.get("model") or ""
+        toks = (fail.get("case") or "").split()
+        try:
+            n = int(toks[3]); empty = all(t == "0" for t in toks[5:5 + n]) and len(toks) == 5 + n
+        except Exception:
+            empty = False
+        if empty and "BADCRS copy-has-rows-but-null-ptr" in imp and imp.replace("BADCRS copy-has-rows-but-null-ptr", split_top(mod)[4] if len(split_top(mod)) > 4 else "?") == mod:
+            return dict(group="idx", adapter="zero_copy_direct", nnz=0, outcome="copy-has-rows-but-null-ptr")
+        return {}
     if fail.get("group") != "row-order": return {}
     site, comp = kind_site(m.get("kind", ""))
     return dict(group="row-order", site=site, component=comp, input_rows_unsorted=True)
+
+
+def _vec_of(item):
+    return [F(x) for x in item.strip()[1:-1].split()]
+
+def classify_scaled_vt(fail):
+    """scaled_problem over Eigen blocks: is the ONLY difference the post-scaling of the vector, and is it exactly
+    'the first n SCALAR entries multiplied by s[i], the rest untouched' (vmul's mixed-type overload applied to a
+    scalar scale vector and a block vector)?  Anything else gets an empty signature (= a new violation)."""
+    try:
+        a, m = split_top(fail["impl"]), split_top(fail["model"])
+        if len(a) != len(m) or a[:-1] != m[:-1] or a[-1] == m[-1]: return {}
+        toks = fail["case"].split()
+        if toks[1] != "scaled_eig": return {}
+        b = int(toks[2]); n = int(toks[3])
+        sv = _vec_of(a[3]); got = _vec_of(a[-1]); want = _vec_of(m[-1])
+        x = [F(t) for t in toks[-n * b:]]
+        wrong = [sv[i] * x[i] if i < n else x[i] for i in range(n * b)]
+        right = [sv[i // b] * x[i] for i in range(n * b)]
+        if got == wrong and want == right:
+            return dict(group="scaled-vt", adapter="scaled_problem", value_type="eigen-block", part="vector-scaling",
+                        pattern="first-n-scalars-only")
+    except Exception:
+        pass
+    return {}
+
+
+def run_vt(ctx, lines=None):
+    """scaled_problem views over block-valued (Eigen blocks + scalar scale / scale_diagonal; static_matrix blocks +
+    block-diagonal scale) and complex-valued matrices, double on dyadic data, vs the extracted Adapters.scaled_adapter
+    evaluated at BlockS / ComplexS"""
+    tier, seed = ctx["tier"], ctx["seed"]
+    ctx2 = vtmodel.model_ctx(ctx)
+    if lines is None:
+        eig, blk = vtmodel.blockvalued_cases(tier, seed)
+        cx = vtmodel.complexvalued_cases(tier, seed)
+    else:
+        eig = [l for l in lines if l.split()[1] == "scaled_eig"]
+        blk = [l for l in lines if l.split()[1] == "scaled_blk"]; cx = [l for l in lines if l.split()[1] == "scaled_cplx"]
+    fails = []
+    th = "correspondence scaled_problem over %s vs Adapters.scaled_adapter at the %s Scalar instance (C17_scaled_entries, C17_scaled_solves)"
+    if blk or cx:
+        f, _, _ = diff_run(ctx2, "adapters_vt", blk + cx, theorem=th % ("static_matrix / std::complex values", "BlockS / ComplexS"), shards=8)
+        fails += f
+    if eig:
+        f, _, _ = diff_run(ctx2, "adapters_vteig", eig, theorem=th % ("Eigen block values", "BlockS"), shards=8)
+        for x in f: x["group"] = "scaled-vt"
+        fails += f
+    return fails
 
 
 def run(ctx, cases_override=None):
@@ -213,12 +354,17 @@ def run(ctx, cases_override=None):
         # replay: route by op
         for l in cases_override:
             op = l.split()[1]
-            if op in ("pc", "pc2"):
+            if op in ("scaled_eig", "scaled_blk", "scaled_cplx"):
+                fails += run_vt(ctx, [l]); continue
+            if op in DRV_OF_OP:
                 fails += run_pc(ctx, replay=cases_override); break
-            drv = "adapters3p" if op in ("eigen", "eigen_map", "ublas") else "adapters"
+            drv = "adapters3p" if op in ("eigen", "eigen_map", "ublas") else "adapters_idx" if op == "idx" else "adapters"
             if op in ("reorder_solve", "scaled_solve"): fails += run_solves(ctx, [l])
             else:
-                f, _, _ = diff_run(ctx, drv, [l]); fails += f
+                f, _, _ = diff_run(ctx, drv, [l])
+                if op == "idx":
+                    for x in f: x["group"] = "idx"
+                fails += f
         return fails
     # ---- V: views (exact) + the same under AddressSanitizer for the zero-copy ops
     v = view_cases(tier, seed) + block_cases(tier, seed) + complex_cases(tier, seed)
@@ -239,6 +385,13 @@ def run(ctx, cases_override=None):
             ol.append("%s o.spmv_same %s %s" % (sp[0], " ".join(toks), out_vec_to_tok(items[-1])))
             byid[sp[0]] = l
     fails += oracle_run(ctx, ol, "block formulation represents the same operator: block spmv = scalar spmv (C13_block_spmv, C17 block adapter)", lambda cid: byid[cid])
+    # ---- index types near their limits
+    f, _, _ = diff_run(ctx, "adapters_idx", idx_cases(tier, seed),
+                       theorem="index types at the edge of their range: zero_copy_direct view, generic copy, tuple iteration (C17_index_conversion_identity, C17_zero_copy_view)")
+    for x in f: x["group"] = "idx"
+    fails += f
+    # ---- value types: scaled_problem over block-valued and complex-valued matrices
+    fails += run_vt(ctx)
     # ---- third-party containers (double, dyadic)
     tp = third_party_cases(tier, seed)
     f, impl3, _ = diff_run(ctx, "adapters3p", tp, theorem="Eigen / uBlas adapters expose the source matrix (correspondence only)")
@@ -326,10 +479,11 @@ def run_pc(ctx, replay=None):
         for k in range(0, len(replay), 2):
             a = replay[k]; b = replay[k + 1] if k + 1 < len(replay) else replay[k]
             cid = a.split()[0].rstrip("ab"); op = a.split()[1]; kind = a.split()[2]
-            cs.append((cid, kind, "pcorder" if op == "pc" else "pcorder2", a.split(" ", 1)[1], b.split(" ", 1)[1], dict(n=0)))
+            if op == "pcrt": kind = "rt_%s_%s" % (a.split()[2], a.split()[3])
+            cs.append((cid, kind, DRV_OF_OP[op], a.split(" ", 1)[1], b.split(" ", 1)[1], dict(n=0)))
     else:
         cs = pc_cases(tier, seed)
-    for drv in ("pcorder", "pcorder2"):
+    for drv in ("pcorder", "pcorder2", "pcorder3", "pcorder_rt"):
         sub = [c for c in cs if c[2] == drv]
         if not sub: continue
         la = ["%sa %s" % (c[0], c[3]) for c in sub]; lb = ["%sb %s" % (c[0], c[4]) for c in sub]
